@@ -176,7 +176,9 @@ class C16(Prop):
                 "C16_chrom_sizes_parse", "C16_compat_ucsc", "C16_compat_native_fixed", "C16_compat_ignored_dropped", "C16_compat_args_tools",
                 "C16_bw_query_is_clip_filter", "C16_bb_query_is_overlap_filter", "C16_restrict_is_query_bigwig",
                 "C16_restrict_is_query_bigbed", "C16_bedgraph_roundtrip_records", "C16_bed_roundtrip_records",
-                "C16_bed_pipeline_text", "C16_bedgraph_pipeline_records"]
+                "C16_bed_pipeline_text", "C16_bedgraph_pipeline_records",
+                "C16_bedgraph_file_roundtrip", "C16_bedgraph_file_text", "C16_bed_file_roundtrip",
+                "C16_restrict_file_bigwig", "C16_restrict_file_bigbed", "C16_bedgraph_input_ok", "C16_bed_file_hyps"]
     RULE = ("pipelines over the BUILT BINARIES: canonical multi-chromosome bedGraph / BED texts (1..6 chromosomes from a pool with "
             "ASCII, UTF-8 and look-alike names in byte order; per chromosome 1..30 records, one line per chromosome for the tiny class, "
             "1030/2100 records for the multi-block class; adjacent / gapped values touching 0 and the chromosome end incl. 2^32-1; BED entries "
